@@ -1,5 +1,6 @@
 (* C07 - format conversion.  Model: Model/Convert.v (to_zerv.rs x2, render pipeline) + Model/Render.v. *)
-From ZV Require Import Str Zerv Render Convert ConvertProofs SemVer.
+From ZV Require Import Str Zerv Render Convert ConvertProofs SemVer Pep440 Pep440Nf PepRoundTrip OutputGrammar RegexSrc.
+From RelationAlgebra Require regex.
 
 (* SemVer -> Zerv always succeeds: the schema pushes of the PreReleaseProcessor never violate the placement rules,
    so the expect() in `From<SemVer> for Zerv` is unreachable - for every SemVer value (any identifier list) *)
@@ -20,6 +21,22 @@ Proof.
   - destruct (Pep440.pep_parse s); discriminate.
 Qed.
 
+(* PEP 440 -> Zerv -> PEP 440 is the identity on every value in normal form with numbers below 2^32 (nothing dropped, reordered or
+   replaced); [pep_nf_b] is the executable form of that hypothesis, evaluated on every value the parser returns in the correspondence runs *)
+Theorem c07_pep440_roundtrip : forall p, pep_nf p -> pep_of_zerv (zerv_of_pep p) = Some p.
+Proof. exact pep_roundtrip. Qed.
+
+Theorem c07_pep440_roundtrip_test_sound : forall p, pep_nf_b p = true -> pep_of_zerv (zerv_of_pep p) = Some p.
+Proof. exact pep_roundtrip_b. Qed.
+
+(* every rendering that `zerv render` prints is a member of the target grammar (re-convertible) *)
+Theorem c07_render_semver_in_grammar : forall inf pre s t, render_cmd inf FSemver pre s = OOk t ->
+  exists v, t = pre ++ v /\ regex.lang semver_spec (map semver_atom_of v).
+Proof. exact render_semver_in_grammar. Qed.
+Theorem c07_render_pep440_in_grammar : forall inf pre s t, render_cmd inf FPep440 pre s = OOk t ->
+  exists v, t = pre ++ v /\ regex.lang pep440_spec (map pep440_atom_of v).
+Proof. exact render_pep440_in_grammar. Qed.
+
 (* non-vacuity: the input that used to panic, and a canonical round trip *)
 Example c07_ex_former_panic :
   match zerv_of_semver {| sv_major := 1; sv_minor := 0; sv_patch := 0;
@@ -37,3 +54,7 @@ Proof. vm_compute. reflexivity. Qed.
 Print Assumptions c07_semver_to_zerv_total.
 Print Assumptions c07_parse_version_semver_no_panic.
 Print Assumptions c07_parse_version_auto_no_panic.
+Print Assumptions c07_pep440_roundtrip.
+Print Assumptions c07_pep440_roundtrip_test_sound.
+Print Assumptions c07_render_semver_in_grammar.
+Print Assumptions c07_render_pep440_in_grammar.
